@@ -44,6 +44,36 @@ pub fn cross_mode(on: bool) {
     CROSS_MODE.store(on, std::sync::atomic::Ordering::SeqCst);
 }
 
+static ABORT_PROP: Mutex<String> = Mutex::new(String::new());
+
+extern "C" fn on_abort(_sig: libc::c_int) {
+    // the subject aborted the process (e.g. an allocation failure turned into abort()): for the
+    // property about totality that is a verdict; name the cases that were in flight
+    let prop = ABORT_PROP.try_lock().map(|p| p.clone()).unwrap_or_default();
+    let cases: Vec<Value> = SLOTS.try_lock().ok().and_then(|g| g.as_ref().map(|m| m.values().map(|(_, v)| v.clone()).collect())).unwrap_or_default();
+    let dumps: Vec<Value> = DUMPS.try_lock().ok().and_then(|g| g.as_ref().map(|m| m.values().map(|(_, v)| v.clone()).collect())).unwrap_or_default();
+    let dir = format!("/verif/replays/{prop}");
+    let _ = std::fs::create_dir_all(&dir);
+    let path = format!("{dir}/abort.json");
+    let case = cases.first().cloned().unwrap_or(Value::Null);
+    let body = json!({"property": prop, "key": "abort", "what": "the process was aborted during a dump request (SIGABRT)", "case": case, "cases_in_flight": cases, "dump_requests_in_flight": dumps});
+    let _ = std::fs::write(&path, serde_json::to_string_pretty(&body).unwrap_or_default());
+    println!("VIOLATION property={prop} replay={path}");
+    eprintln!("violation {prop} [abort]: the process was aborted during a dump request; cases in flight: {}", Value::Array(cases));
+    mdv_core::report::emergency_flush();
+    unsafe { libc::_exit(1) }
+}
+
+/// For the totality property: an abort of the process during a dump request is a violation, not a crash of the harness.
+pub fn abort_is_violation(prop: &str) {
+    if let Ok(mut g) = ABORT_PROP.lock() {
+        *g = prop.to_string();
+    }
+    unsafe {
+        libc::signal(libc::SIGABRT, on_abort as *const () as usize);
+    }
+}
+
 pub fn start(prop: &str, limit: Duration, hang_is_violation: bool) {
     let prop = prop.to_string();
     std::thread::spawn(move || loop {
@@ -71,6 +101,11 @@ pub fn start(prop: &str, limit: Duration, hang_is_violation: bool) {
                 std::process::exit(1);
             } else {
                 eprintln!("MACHINERY {prop}: a case ran for {:.0} s without finishing: {}", age.as_secs_f64(), case);
+                // a verdict that was reached before the run got stuck still stands
+                if mdv_core::report::emergency_flush() {
+                    eprintln!("{prop}: violations were found before the run got stuck; reporting them");
+                    std::process::exit(1);
+                }
                 std::process::exit(2);
             }
         }
